@@ -61,7 +61,7 @@ func main() {
 		copiesDiffer = d
 	}
 	r := vgen.NewRand(o.Seed)
-	w := vgen.NewWriter(o.Out, "C13.Types C13.Model C13.Spec C13.Corr", "case", 240)
+	w := vgen.NewWriter(o.Out, "C13.Types C13.Model C13.Spec C13.Corr", "case", 110)
 	w.Rule = "batches of spans / log records mixing 1-4 resources and 0-4 scopes (shared, empty, differing only in one field), metric ResourceMetrics with every " +
 		"aggregation kind and number type, Zipkin batches; each exported through the real exporters to in-process collectors (true wire round trip) and decoded; " +
 		"a case is non-trivial when it holds more than one item or an item with attributes; distinct = distinct Coq case terms"
@@ -95,12 +95,12 @@ func main() {
 		}
 		rr := r.Fork()
 		for i, b := range traceCorpus() {
-			guard(map[string]any{"signal": "traces", "corpus": i}, func() { runTraceBatch(ctx, w, tr, b, "traces-corpus") })
+			guard(map[string]any{"signal": "traces", "corpus": i}, func() { runTraceBatch(ctx, w, tr, b, "traces-corpus", i%2 == 1) })
 		}
 		n := o.Count(230, 6000)
 		for i := 0; i < n; i++ {
 			b := genSpanBatch(rr, i%3 == 0)
-			guard(map[string]any{"signal": "traces", "batch": i}, func() { runTraceBatch(ctx, w, tr, b, "traces") })
+			guard(map[string]any{"signal": "traces", "batch": i}, func() { runTraceBatch(ctx, w, tr, b, "traces", i%3 == 2) })
 		}
 		tr.shutdown(ctx)
 	}
